@@ -186,10 +186,19 @@ func c10SectionExtents(c *Ctx, r *Report) {
 				why = "the emitted value is not a slice input[start:end]"
 				return true
 			}
-			lo, hi := identObj(info, se.Low), identObj(info, se.High)
-			if lo == nil || hi == nil || cf.defs.count[lo] != 1 || cf.defs.count[hi] != 1 {
-				why = "start / end of the emitted slice are not locals with a single definition"
+			lo := identObj(info, se.Low)
+			if lo == nil || cf.defs.count[lo] != 1 {
+				why = "the start of the emitted slice is not a local with a single definition (the position recorded before the body)"
 				return true
+			}
+			// the end: a local with a single definition, or the expression written in place
+			hiExpr := unparen(se.High)
+			if hi := identObj(info, se.High); hi != nil {
+				if cf.defs.count[hi] != 1 {
+					why = "the end of the emitted slice is a local with several definitions"
+					return true
+				}
+				hiExpr = unparen(cf.defs.single[hi])
 			}
 			// start: l.end, taken before anything of the body is consumed
 			if !isLexEnd(cf.defs.single[lo]) {
@@ -197,7 +206,7 @@ func c10SectionExtents(c *Ctx, r *Report) {
 				return true
 			}
 			// end: l.end − len(closing marker)
-			be, ok := unparen(cf.defs.single[hi]).(*ast.BinaryExpr)
+			be, ok := hiExpr.(*ast.BinaryExpr)
 			if !ok || be.Op != token.SUB || !isLexEnd(be.X) {
 				why = "the slice does not end at `l.end − <length of the closing marker>`"
 				return true
@@ -675,6 +684,15 @@ func c10CursorDiscipline(c *Ctx, r *Report, clause string) {
 							}
 						}
 					}
+					// or through a helper of the lexer whose only effect on the cursor is `l.end = <parameter>`,
+					// called with the saved position for that parameter
+					if es, ok := blk.List[i-1].(*ast.ExprStmt); ok {
+						if call, ok := es.X.(*ast.CallExpr); ok {
+							if k := cursorParamOf(c, info, call); k >= 0 && k < len(call.Args) && identObj(info, call.Args[k]) == saved {
+								restored = true
+							}
+						}
+					}
 				}
 			}
 			if !restored {
@@ -951,7 +969,18 @@ func c01StackPrimitives(c *Ctx, r *Report, clause string, st *Staged) {
 					if br, ok := is.Body.List[0].(*ast.BranchStmt); !ok || br.Tok != token.BREAK {
 						break
 					}
-					guards = append(guards, norm(oneLine(printNode(sk.Fset, is.Cond))))
+					// a disjunction leaves the loop for each of its alternatives
+					var disj func(e ast.Expr)
+					disj = func(e ast.Expr) {
+						e = unparen(e)
+						if be, ok := e.(*ast.BinaryExpr); ok && be.Op == token.LOR {
+							disj(be.X)
+							disj(be.Y)
+							return
+						}
+						guards = append(guards, norm(oneLine(printNode(sk.Fset, e))))
+					}
+					disj(is.Cond)
 				}
 				okG := true
 				for _, g := range guards {
@@ -1022,4 +1051,43 @@ func c01StackPrimitivesTS(c *Ctx, r *Report, clause string, st *Staged) {
 		r.Check(ok, clause, "TS DRIVER", "typescript/StateSym.constructor", "Builder/TsGenCode.go",
 			"new StateSym(state, symbol) stores both arguments", "the StateSym constructor is `"+got+"`: the state or the symbol of a new entry is lost")
 	}
+}
+
+// cursorParamOf: the call goes to a repository method whose body is straight-line assignments and sets the receiver's
+// `end` field exactly once, from one of its parameters; the index of that parameter, or −1.
+func cursorParamOf(c *Ctx, info *types.Info, call *ast.CallExpr) int {
+	fn := callee(info, call)
+	if fn == nil {
+		return -1
+	}
+	ref := c.FuncOf(fn)
+	if ref == nil || ref.Decl.Recv == nil {
+		return -1
+	}
+	hinfo := ref.Pkg.TypesInfo
+	ps := paramObjs(hinfo, ref.Decl)
+	idx, n := -1, 0
+	for _, st := range ref.Decl.Body.List {
+		as, ok := st.(*ast.AssignStmt)
+		if !ok || len(as.Lhs) != len(as.Rhs) || as.Tok != token.ASSIGN {
+			return -1
+		}
+		for k, l := range as.Lhs {
+			se, ok := unparen(l).(*ast.SelectorExpr)
+			if !ok || !fieldNamed(hinfo, se, "end") {
+				continue
+			}
+			n++
+			o := identObj(hinfo, as.Rhs[k])
+			for i, p := range ps {
+				if p == o {
+					idx = i
+				}
+			}
+		}
+	}
+	if n != 1 {
+		return -1
+	}
+	return idx
 }
